@@ -78,7 +78,7 @@ def deep(fn: ast.AST, e: ast.AST, depth: int = 3) -> ast.AST:
         if isinstance(st, ast.Assign):
             for t in st.targets:
                 for n in ast.walk(t):
-                    if isinstance(n, ast.Name):
+                    if isinstance(n, ast.Name) and isinstance(n.ctx, (ast.Store, ast.Del)):      # d[k] = v binds neither d nor k
                         count[n.id] = count.get(n.id, 0) + 1
             if len(st.targets) == 1 and isinstance(st.targets[0], ast.Name):
                 env[st.targets[0].id] = st.value
@@ -1463,3 +1463,32 @@ def cast_exactly_on_type_mismatch(emit_fn: ast.AST) -> Tuple[bool, str]:
     if not seen_cast or not seen_plain:
         return False, f"paths with a cast: {seen_cast}, without: {seen_plain}"
     return True, "cast exactly when both types are known and differ"
+
+
+def range_count(e: ast.AST) -> Optional[Tuple[str, int]]:
+    """(symbol, offset): the number of iterations of `for .. in <e>` when e is range(..) with unit step, as symbol + offset
+    (`range(1, depth)`, `range(depth - 1)`, `range(0, depth - 1)` are all ('depth', -1); a constant count has symbol '')."""
+    if not (isinstance(e, ast.Call) and isinstance(e.func, ast.Name) and e.func.id == "range" and not e.keywords and 1 <= len(e.args) <= 2):
+        return None
+
+    def lin(x) -> Optional[Tuple[str, int]]:
+        if isinstance(x, ast.Constant) and isinstance(x.value, int) and not isinstance(x.value, bool):
+            return ("", x.value)
+        if isinstance(x, ast.BinOp) and isinstance(x.op, (ast.Add, ast.Sub)):
+            a, b = lin(x.left), lin(x.right)
+            if a is None or b is None:
+                return None
+            sign = 1 if isinstance(x.op, ast.Add) else -1
+            if b[0] == "":
+                return (a[0], a[1] + sign * b[1])
+            if a[0] == "" and sign == 1:
+                return (b[0], a[1] + b[1])
+            return None
+        if isinstance(x, (ast.Name, ast.Attribute)):
+            return (src(x), 0)
+        return None
+    lo = ("", 0) if len(e.args) == 1 else lin(e.args[0])
+    hi = lin(e.args[-1])
+    if lo is None or hi is None or lo[0] != "":
+        return None
+    return (hi[0], hi[1] - lo[1])
